@@ -635,9 +635,13 @@ class Mod:
     # ---- edits
     def new_const(self, name, same_size):
         old = self.c[name]
+        n = len(str(old))
         while True:
-            v = self.rng.randrange(100, 1000) if same_size else self.rng.choice([self.rng.randrange(1000, 100000), self.rng.randrange(10, 100)])
-            if v != old and (not same_size or len(str(v)) == len(str(old))):
+            if same_size:
+                v = self.rng.randrange(10 ** (n - 1), 10 ** n)
+            else:
+                v = self.rng.choice([self.rng.randrange(1000, 100000), self.rng.randrange(10, 100), self.rng.randrange(100, 1000)])
+            if v != old and (same_size or len(str(v)) != n):
                 self.c[name] = v
                 return
 
